@@ -6,7 +6,15 @@ R1 codec symmetry and operand roles in `remap_path` (one instance per `return`):
       are counted); the plain-path branch applies no URL coding at all -- a plain path is not percent-encoded, so
       decoding it changes names that contain `%`, and a decoded location that is not re-encoded does not round-trip;
    b. the directory given to `relpath` is `old_dir`, the first component of the re-assembled path is `new_dir`;
-   c. the prefix sliced off a `file://` location has exactly the length of the literal prefix put back.
+   c. the prefix sliced off a `file://` location has exactly the length of the literal prefix put back;
+   d. the part below the old directory is computed by a separator-aware relative-path operation (`relpath`,
+      `relative_to`, `removeprefix`) and re-assembled by `path_processor.join`: cutting the path by character count
+      (`path[len(old_dir) + 1:]`) is wrong by one as soon as `old_dir` is written with a trailing separator;
+   e. the operand of that operation is the *complete* parameter `path` -- on the plain branch the parameter itself, on
+      the `file://` branch the parameter with exactly the literal prefix removed (`path[7:]`, `path[len('file://'):]`,
+      `path.removeprefix('file://')`), followed through the definitions that reach the return and through URL
+      decoders.  A component of a parsed URL (`urlsplit(path).path`) is not the complete name: the parser cuts it at
+      `#` and `?`, so `file:///old/a#1.txt` would be re-based as `/old/a`.
 R2 recursion coverage and pass-through:
    a. `remap_token_value`, for File/Directory objects (both class names in the guarding pattern): `location` and `path`
       are replaced by `remap_path(value[<same key>])`, `secondaryFiles` and `listing` by the element-wise recursion
@@ -27,7 +35,7 @@ import ast
 
 from ..model import unparse
 from ..selftest import V
-from ._util_G import calls_flow, case_constants, const_str, expand, guards_of, is_call_to
+from ._util_G import calls_flow, case_constants, const_str, expand, guards_of, is_call_to, reaching
 
 MOD = "streamflow.cwl.utils"
 FILE = "streamflow/cwl/utils.py"
@@ -41,7 +49,8 @@ META = {
     "explanation": (
         "AST/CFG rules on streamflow.cwl.utils.remap_path and remap_token_value: per return statement the URL decoders "
         "and encoders applied to the value are counted along reaching definitions; operand roles of old_dir/new_dir; "
-        "literal-prefix/slice agreement; for File/Directory objects every path-carrying key is rewritten from the same "
+        "literal-prefix/slice agreement; the relative part comes from relpath/relative_to/removeprefix (not from a len(old_dir) slice) "
+        "and its operand is the complete `path` parameter behind the literal prefix (not a parsed-URL component); for File/Directory objects every path-carrying key is rewritten from the same "
         "key under its own presence test and nested values are recursed; return shapes; non-file schemes untouched."
     ),
     "undecided": "equality of the round-tripped value (needs execution); relpath semantics for paths outside old_dir",
@@ -62,6 +71,101 @@ def _kind_of_return(f, r):
 
 def _count(p, f, calls, names):
     return [c for c in calls if is_call_to(p, f, c, *names)]
+
+
+URL_PARSERS = ("urllib.parse.urlsplit", "urllib.parse.urlparse", "urllib.parse.urldefrag", "urllib.parse.urlunsplit", "urllib.parse.urlunparse")
+REL_ATTRS = ("relpath", "relative_to", "removeprefix")
+
+
+def _is_rel(p, f, c) -> bool:
+    if isinstance(c.func, ast.Attribute):
+        if c.func.attr == "removeprefix":  # `path.removeprefix('file://')` strips the scheme, it is not the re-basing
+            return bool(c.args) and const_str(expand(f, c.args[0])) is None
+        return c.func.attr in REL_ATTRS
+    return is_call_to(p, f, c, "os.path.relpath", "posixpath.relpath", "ntpath.relpath")
+
+
+def _rel_base(c):
+    """The directory operand of a relative-path call (`start` of relpath, the argument of relative_to/removeprefix)."""
+    if isinstance(c.func, ast.Attribute) and c.func.attr in ("relative_to", "removeprefix"):
+        return c.args[0] if c.args else None
+    for k in c.keywords:
+        if k.arg == "start":
+            return k.value
+    pos = [a for a in c.args if not isinstance(a, ast.Starred)]
+    if any(k.arg == "path" for k in c.keywords):
+        return pos[0] if pos else None
+    return pos[1] if len(pos) > 1 else None
+
+
+def _rel_subject(c):
+    """The path operand of a relative-path call: first argument of `relpath`, receiver of `relative_to`/`removeprefix`
+    (a `*Path(x)` constructor around the receiver is looked through)."""
+    if isinstance(c.func, ast.Attribute) and c.func.attr in ("relative_to", "removeprefix"):
+        e = c.func.value
+        if isinstance(e, ast.Call) and unparse(e.func).endswith("Path") and len(e.args) == 1 and not e.keywords:
+            e = e.args[0]
+        return e
+    for k in c.keywords:
+        if k.arg == "path":
+            return k.value
+    return c.args[0] if c.args and not isinstance(c.args[0], ast.Starred) else None
+
+
+def _const_len(f, e):
+    """Value of a prefix length written as an int literal or as `len('<literal>')`."""
+    e = expand(f, e)
+    if isinstance(e, ast.Constant) and isinstance(e.value, int) and not isinstance(e.value, bool):
+        return e.value
+    if isinstance(e, ast.Call) and isinstance(e.func, ast.Name) and e.func.id == "len" and len(e.args) == 1 and const_str(e.args[0]) is not None:
+        return len(e.args[0].value)
+    return None
+
+
+def _source(p, f, e, at, depth=6):
+    """How `e`, evaluated at CFG node `at`, derives from parameter `path`: one `(cut, problem)` per reaching
+    definition chain.  `cut` is what was removed in front (None, a character count, or a literal prefix); `problem`
+    is a text when `e` is not the parameter with only a leading prefix removed."""
+    if isinstance(e, ast.Await):
+        e = e.value
+    if depth <= 0:
+        return [(None, f"`{unparse(e)[:60]}` could not be followed back to parameter `path`")]
+    if isinstance(e, ast.Call):
+        one_arg = len(e.args) == 1 and not isinstance(e.args[0], ast.Starred)
+        if one_arg and (is_call_to(p, f, e, *DECODERS, *ENCODERS) or (isinstance(e.func, ast.Name) and e.func.id == "str") or is_call_to(p, f, e, "os.fspath")):
+            return _source(p, f, e.args[0], at, depth - 1)
+        if isinstance(e.func, ast.Attribute) and e.func.attr == "removeprefix" and one_arg and not e.keywords:
+            lit = const_str(expand(f, e.args[0]))
+            if lit is not None:
+                return [(lit, pr) if c is None else (c, pr or "a prefix is removed twice") for c, pr in _source(p, f, e.func.value, at, depth - 1)]
+    elif isinstance(e, ast.Subscript) and isinstance(e.slice, ast.Slice) and e.slice.upper is None and e.slice.step is None and e.slice.lower is not None:
+        k = _const_len(f, e.slice.lower)
+        if k is not None and k >= 0:
+            return [(k, pr) if c is None else (c, pr or "a prefix is removed twice") for c, pr in _source(p, f, e.value, at, depth - 1)]
+    elif isinstance(e, ast.Name):
+        defs = reaching(f, e.id, at)
+        if e.id == "path" and defs == ["param"]:
+            return [(None, None)]
+        out = []
+        for d in defs:
+            if d == "param":
+                if e.id == "path":
+                    out.append((None, None))
+                continue
+            a = f.cfg.nodes[d].ast
+            if isinstance(a, ast.AnnAssign) and a.value is not None and isinstance(a.target, ast.Name):
+                out += _source(p, f, a.value, d, depth - 1)
+            elif isinstance(a, ast.Assign) and len(a.targets) == 1 and isinstance(a.targets[0], ast.Name):
+                out += _source(p, f, a.value, d, depth - 1)
+            else:
+                out.append((None, f"`{e.id}` is bound by `{f.cfg.nodes[d].text(50)}`"))
+        if out:
+            return out
+    ex = expand(f, e)
+    parsed = [c for c in [ex, *ast.walk(ex)] if is_call_to(p, f, c, *URL_PARSERS)]
+    if parsed:
+        return [(None, f"`{unparse(e)[:60]}` is a component of the parsed URL `{unparse(parsed[0])[:60]}`: the parser cuts the name at `#` and `?` (and strips tab/newline characters), so `file:///old/a#1.txt` is re-based as `/old/a` and the rest of the name is lost")]
+    return [(None, f"`{unparse(ex)[:70]}` is not parameter `path` with only the literal prefix removed")]
 
 
 def r1(ctx):
@@ -96,15 +200,49 @@ def r1(ctx):
         ctx.ob("R1", f"remap_path [{kind} branch]: URL decode/encode applications are balanced", ok, func=f, node=r,
                instance=f"remap_path:{kind}:codec", message=msg,
                witness=[f"decoders: {[unparse(c)[:60] for c in dec]}", f"encoders: {[unparse(c)[:60] for c in enc]}"])
-        # b. operand roles
-        rel = [c for c in calls if isinstance(c.func, ast.Attribute) and c.func.attr in ("relpath", "relative_to", "removeprefix")]
+        # d. a separator-aware relative-path operation, re-assembled by path_processor.join
+        rel = [c for c in calls if _is_rel(p, f, c)]
         join = [c for c in calls if isinstance(c.func, ast.Attribute) and c.func.attr == "join" and isinstance(c.func.value, ast.Name) and c.func.value.id == "path_processor"]
-        ctx.require(bool(rel) and bool(join), f"C32.R1: cannot interpret how the {kind} branch re-bases the path (no relpath/join found)")
-        rel_ok = all(any(isinstance(a, ast.Name) and a.id == "old_dir" for a in c.args[1:2] or c.args[:1]) and not any(isinstance(a, ast.Name) and a.id == "new_dir" for a in c.args) for c in rel)
-        join_ok = all(c.args and isinstance(c.args[0], ast.Name) and c.args[0].id == "new_dir" for c in join)
-        ctx.ob("R1", f"remap_path [{kind} branch]: relative to old_dir, re-based on new_dir", rel_ok and join_ok, func=f, node=r,
-               instance=f"remap_path:{kind}:roles",
-               message=f"{kind} branch: relpath against `{[unparse(a) for c in rel for a in c.args[1:2]]}` and join on `{[unparse(c.args[0]) for c in join if c.args]}` (expected old_dir / new_dir)")
+        whole = expand(f, r.value)
+        counted = [n for n in ast.walk(whole) if isinstance(n, ast.Subscript) and isinstance(n.slice, ast.Slice)
+                   and any(isinstance(x, ast.Name) and x.id in ("old_dir", "new_dir") for x in ast.walk(n.slice))]
+        if not rel and counted:
+            how = (f"cuts the path by character count (`{unparse(counted[0])[:70]}`): with the directory written with a trailing separator "
+                   "(`/data/out/`) the slice eats the first character of the relative part (`/data/out/a b.txt` -> `<new_dir>/ b.txt`)")
+        elif not rel:
+            how = f"contains no relpath/relative_to/removeprefix against old_dir (`return {unparse(r.value)[:70]}`)"
+        else:
+            how = "does not re-assemble the result with path_processor.join(new_dir, ...)"
+        ctx.ob("R1", f"remap_path [{kind} branch]: the part below old_dir comes from a relative-path operation and is joined by path_processor", bool(rel) and bool(join),
+               func=f, node=r, instance=f"remap_path:{kind}:relative", message=f"{kind} branch {how}")
+        # b. operand roles
+        if rel and join:
+            bases = [expand(f, b) if b is not None else None for b in map(_rel_base, rel)]
+            rel_ok = all(isinstance(b, ast.Name) and b.id == "old_dir" for b in bases) and not any(
+                isinstance(a, ast.Name) and a.id == "new_dir" for c in rel for a in [*c.args, *(k.value for k in c.keywords)])
+            join_ok = all(c.args and isinstance(c.args[0], ast.Name) and c.args[0].id == "new_dir" for c in join)
+            ctx.ob("R1", f"remap_path [{kind} branch]: relative to old_dir, re-based on new_dir", rel_ok and join_ok, func=f, node=r,
+                   instance=f"remap_path:{kind}:roles",
+                   message=f"{kind} branch: relpath against `{[unparse(b) if b is not None else None for b in bases]}` and join on `{[unparse(c.args[0]) for c in join if c.args]}` (expected old_dir / new_dir)")
+        # e. the operand is the complete path
+        if rel:
+            problems = []
+            for c in rel:
+                subj = _rel_subject(c)
+                if subj is None:
+                    problems.append(f"`{unparse(c)[:60]}` has no path operand")
+                    continue
+                for cut, pr in _source(p, f, subj, rid[0]):
+                    if pr:
+                        problems.append(pr)
+                    elif kind == "plain" and cut is not None:
+                        problems.append(f"the plain path loses its first {cut!r} before it is made relative to old_dir")
+                    elif kind == "url" and cut is None:
+                        problems.append(f"the location is made relative to old_dir with its `{prefix}` prefix still in front")
+                    elif kind == "url" and cut != prefix and cut != len(prefix):
+                        problems.append(f"the location is cut at {cut!r} but the prefix put back is {prefix!r} ({len(prefix)} characters)")
+            ctx.ob("R1", f"remap_path [{kind} branch]: the re-based operand is the complete path" + (" behind the literal prefix" if kind == "url" else ""), not problems,
+                   func=f, node=r, instance=f"remap_path:{kind}:operand", message=f"{kind} branch: " + "; ".join(dict.fromkeys(problems)))
         # c. prefix length
         if kind == "url":
             slices = set()
@@ -295,7 +433,7 @@ def r2(ctx):
 
 
 RULES = [("R1", r1), ("R2", r2)]
-FLOORS = {"R1": 4, "R2": 9}
+FLOORS = {"R1": 8, "R2": 9}
 
 _IF_CHAIN = '''def remap_token_value(path_processor: ModuleType, old_dir: str, new_dir: str, value: Any) -> Any:
     if isinstance(value, MutableSequence):
@@ -342,6 +480,25 @@ VARIANTS = [
     V("records: keys remapped too", FILE, RTV, "return {k: remap_token_value(path_processor, old_dir, new_dir, v) for k, v in value.items()}",
       "return {remap_token_value(path_processor, old_dir, new_dir, k): remap_token_value(path_processor, old_dir, new_dir, v) for k, v in value.items()}", "R2"),
     V("default case dropped", FILE, RTV, "        case _:\n            return value", "        case str():\n            return value", "R2"),
+    # ---- breaking: R1d/R1e (seeded changes C32-1, C32-3)
+    V("url branch: body taken from urlsplit().path (drops #... and ?...)", FILE, RP, "urllib.parse.unquote(path[7:])", "urllib.parse.unquote(urllib.parse.urlsplit(path).path)", "R1"),
+    V("url branch: parsed URL kept in a local, .path re-based", FILE, RP,
+      "scheme = urllib.parse.urlsplit(path).scheme\n        if scheme == 'file':\n            return 'file://{}'.format(path_processor.join(new_dir, *os.path.relpath(urllib.parse.unquote(path[7:]), old_dir)",
+      "url = urllib.parse.urlsplit(path)\n        if url.scheme == 'file':\n            return 'file://{}'.format(path_processor.join(new_dir, *os.path.relpath(urllib.parse.unquote(url.path), old_dir)", "R1"),
+    V("url branch: body taken from urlparse through a temporary", FILE, RP,
+      "            return 'file://{}'.format(path_processor.join(new_dir, *os.path.relpath(urllib.parse.unquote(path[7:]), old_dir)",
+      "            body = urllib.parse.urlparse(path).path\n            return 'file://{}'.format(path_processor.join(new_dir, *os.path.relpath(urllib.parse.unquote(body), old_dir)", "R1"),
+    V("url branch: prefix not removed before relpath", FILE, RP, "urllib.parse.unquote(path[7:])", "urllib.parse.unquote(path)", "R1"),
+    V("url branch: removeprefix of a shorter literal", FILE, RP, "urllib.parse.unquote(path[7:])", "urllib.parse.unquote(path.removeprefix('file:/'))", "R1"),
+    V("plain branch: first character dropped before relpath", FILE, RP, "os.path.relpath(urllib.parse.unquote(path), old_dir)", "os.path.relpath(urllib.parse.unquote(path[1:]), old_dir)", "R1"),
+    V("plain branch: relative part by len(old_dir)+1 slice", FILE, RP, "*os.path.relpath(urllib.parse.unquote(path), old_dir).split(os.path.sep)",
+      "*urllib.parse.unquote(path)[len(old_dir) + 1:].split(os.path.sep)", "R1", control=True),
+    V("url branch: relative part by len(old_dir) slice through a local", FILE, RP,
+      "            return 'file://{}'.format(path_processor.join(new_dir, *os.path.relpath(urllib.parse.unquote(path[7:]), old_dir).split(os.path.sep)))",
+      "            tail = urllib.parse.unquote(path[7:])[len(old_dir):].lstrip('/')\n            return 'file://{}'.format(path_processor.join(new_dir, *tail.split(os.path.sep)))", "R1"),
+    V("plain branch: string concatenation instead of path_processor.join", FILE, RP,
+      "return path_processor.join(new_dir, *os.path.relpath(urllib.parse.unquote(path), old_dir).split(os.path.sep))",
+      "return new_dir + '/' + os.path.relpath(urllib.parse.unquote(path), old_dir)", "R1"),
     # ---- benign
     V("benign: rename comprehension variable", FILE, RTV, "new_dir, sf) for sf in value['listing']]", "new_dir, entry) for entry in value['listing']]", None),
     V("benign: remap_path result through a temporary", FILE, RTV,
@@ -357,6 +514,15 @@ VARIANTS = [
       "'file://{}'.format(path_processor.join(new_dir, *os.path.relpath(urllib.parse.unquote(path[7:]), old_dir).split(os.path.sep)))",
       "'file://{}'.format(urllib.parse.quote(path_processor.join(new_dir, *os.path.relpath(urllib.parse.unquote(path[7:]), old_dir).split(os.path.sep))))", None),
     V("benign: scheme test through startswith", FILE, RP, "if scheme == 'file':", "if path.startswith('file://'):", None),
+    V("benign: url body through a temporary", FILE, RP,
+      "            return 'file://{}'.format(path_processor.join(new_dir, *os.path.relpath(urllib.parse.unquote(path[7:]), old_dir)",
+      "            body = path[7:]\n            return 'file://{}'.format(path_processor.join(new_dir, *os.path.relpath(urllib.parse.unquote(body), old_dir)", None),
+    V("benign: prefix length written as len('file://')", FILE, RP, "path[7:]", "path[len('file://'):]", None),
+    V("benign: prefix removed with removeprefix", FILE, RP, "path[7:]", "path.removeprefix('file://')", None),
+    V("benign: decoded body through a temporary, parsed URL kept for the scheme only", FILE, RP,
+      "scheme = urllib.parse.urlsplit(path).scheme\n        if scheme == 'file':\n            return 'file://{}'.format(path_processor.join(new_dir, *os.path.relpath(urllib.parse.unquote(path[7:]), old_dir)",
+      "url = urllib.parse.urlsplit(path)\n        if url.scheme == 'file':\n            decoded = urllib.parse.unquote(path[7:])\n            return 'file://{}'.format(path_processor.join(new_dir, *os.path.relpath(decoded, old_dir)", None),
+    V("benign: relpath called with keywords", FILE, RP, "os.path.relpath(urllib.parse.unquote(path), old_dir)", "os.path.relpath(path=urllib.parse.unquote(path), start=old_dir)", None),
 ]
 
 
